@@ -50,6 +50,14 @@ def run(ctx):
     ctx.require(sock_var, 'client socket variable not found')
     cli = sock_var[0]
 
+    # the header variable: bound to the first message read from the client
+    hdr = None
+    for st in loop.body:
+        for n in walk_local(st):
+            if hdr is None and isinstance(n, ast.Assign) and isinstance(n.targets[0], ast.Name) and isinstance(n.value, ast.Call) and last_attr(n.value) == 'recv_msg':
+                hdr = n.targets[0].id
+    ctx.require(hdr is not None, 'RemoteServer.run: header read not found')
+
     # ---------------------------------------------------------------- R1 containment
     exits = {n.id for n in g.exits()}
     n_sites = 0
@@ -90,7 +98,7 @@ def run(ctx):
             cur, exempt = n.stmt, False
             while cur in pm:
                 cur = pm[cur]
-                if isinstance(cur, ast.If) and norm(cur.test).endswith(' is None') and 'header' in norm(cur.test):
+                if isinstance(cur, ast.If) and norm(cur.test) == f'{hdr} is None':
                     exempt = True
             if exempt:
                 ctx.ob('R3', 'continue of the no-request (None header) branch: nothing is awaited by that client', True)
